@@ -497,6 +497,27 @@ static ares_bool_t ai_has_ipv4(struct ares_addrinfo *ai)
   return ARES_FALSE;
 }
 
+/* An answer may carry address records of the other type (e.g. AAAA records in
+ * the answer to an A question).  Drop nodes of a family the caller did not ask
+ * for. */
+static void ai_restrict_family(struct ares_addrinfo *ai, int family)
+{
+  struct ares_addrinfo_node **next = &ai->nodes;
+
+  while (*next != NULL) {
+    struct ares_addrinfo_node *node = *next;
+
+    if (node->ai_family == family) {
+      next = &node->ai_next;
+      continue;
+    }
+
+    *next         = node->ai_next;
+    node->ai_next = NULL;
+    ares_freeaddrinfo_nodes(node);
+  }
+}
+
 static void host_callback(void *arg, ares_status_t status, size_t timeouts,
                           const ares_dns_record_t *dnsrec)
 {
@@ -511,6 +532,17 @@ static void host_callback(void *arg, ares_status_t status, size_t timeouts,
     } else {
       addinfostatus =
         ares_parse_into_addrinfo(dnsrec, ARES_TRUE, hquery->port, hquery->ai);
+      if (addinfostatus == ARES_SUCCESS &&
+          hquery->hints.ai_family != AF_UNSPEC) {
+        ai_restrict_family(hquery->ai, hquery->hints.ai_family);
+        if (hquery->ai->nodes == NULL) {
+          /* Only one query is outstanding per name for a single family, so
+           * everything collected so far came from this answer. */
+          ares_freeaddrinfo_cnames(hquery->ai->cnames);
+          hquery->ai->cnames = NULL;
+          addinfostatus      = ARES_ENODATA;
+        }
+      }
     }
 
     /* We sent out ipv4 and ipv6 requests simultaneously.  If we got a
